@@ -140,6 +140,16 @@ func TestVerifC17HTTP(t *testing.T) {
 			w.Header().Set("Content-Length", strconv.FormatInt(size, 10))
 			w.WriteHeader(200)
 			w.Write(file)
+		case "wholecut":
+			// a server without Range support (200, whole file) whose transfer is cut after some bytes
+			k := int(size) / 3
+			if hj, ok := w.(http.Hijacker); ok {
+				c, buf, _ := hj.Hijack()
+				fmt.Fprintf(buf, "HTTP/1.1 200 OK\r\nContent-Length: %d\r\nContent-Type: application/octet-stream\r\n\r\n", size)
+				buf.Write(file[:k])
+				buf.Flush()
+				c.Close()
+			}
 		case "drop":
 			if hj, ok := w.(http.Hijacker); ok {
 				c, _, _ := hj.Hijack()
@@ -148,7 +158,7 @@ func TestVerifC17HTTP(t *testing.T) {
 		}
 	}))
 	defer srv.Close()
-	for k, bad := range []string{"503", "short", "empty", "whole", "drop"} {
+	for k, bad := range []string{"503", "short", "empty", "whole", "wholecut", "drop"} {
 		mode = "ok"
 		rr, _, err := NewRemoteHTTPFileAsIoReaderAt(context.Background(), srv.URL+"/f")
 		o := c17Obs{Kind: "readat", Case: 100 + k, Size: size, Nontriv: true}
@@ -173,6 +183,12 @@ func TestVerifC17HTTP(t *testing.T) {
 			}
 			l := int64(1 + rng.Intn(300))
 			off := int64(rng.Intn(int(size - l)))
+			if step%6 == 2 {
+				off = 0 // (a full reply is acceptable for a read from the start: the first faulty read starts there)
+				if bad == "wholecut" {
+					l = size/3 + 50 + int64(rng.Intn(100)) // longer than what arrives before the cut
+				}
+			}
 			if step%6 >= 4 {
 				// after the remote recovered: reads nested in / overlapping the range that failed just before
 				prev := o.Calls[len(o.Calls)-1]
